@@ -42,16 +42,33 @@ def check(ctx):
 
 
 # ------------------------------------------------------------------ RW
-def _wrapper_reads(ctx, itf, arf):
-    """keys read from `rounding_spec = params[key]["rounding"][name]`"""
+def _spec_read(itf, arf):
+    """the expression `params[key]["rounding"][name]` (a Load), the function containing it, and the variable of
+    _add_rounding_to_functions that holds the spec"""
+    from staticlib.guards import scope_functions
+
+    scope = scope_functions(itf, arf)
+    reads = []
+    for f in scope:
+        for n in ast.walk(f):
+            if isinstance(n, ast.Subscript) and isinstance(n.ctx, ast.Load) and isinstance(n.value, ast.Subscript) and isinstance(n.value.slice, ast.Constant) and n.value.slice.value == "rounding":
+                reads.append((f, n))
+    if len(reads) != 1:
+        raise AnalysisError(f"the statement reading params[key]['rounding'][name] not found exactly once in _add_rounding_to_functions and its helpers ({len(reads)})")
+    rf, read = reads[0]
     spec_var = None
     for n in walk_own(arf):
-        if isinstance(n, ast.Assign) and isinstance(n.targets[0], ast.Name) and isinstance(n.value, ast.Subscript):
-            t = ast.unparse(n.value)
-            if "['rounding']" in t or '["rounding"]' in t:
+        if isinstance(n, ast.Assign) and isinstance(n.targets[0], ast.Name):
+            if n.value is read or (isinstance(n.value, ast.Call) and isinstance(n.value.func, ast.Name) and n.value.func.id == rf.name and rf is not arf):
                 spec_var = n.targets[0].id
     if spec_var is None:
-        raise AnalysisError("_add_rounding_to_functions: the statement reading params[key]['rounding'][name] not found")
+        raise AnalysisError("_add_rounding_to_functions: variable holding the rounding spec not found")
+    return rf, read, spec_var
+
+
+def _wrapper_reads(ctx, itf, arf):
+    """keys read from the rounding spec in _add_rounding_to_functions"""
+    rf, read, spec_var = _spec_read(itf, arf)
     keys = set()
     for n in ast.walk(arf):
         if isinstance(n, ast.Subscript) and isinstance(n.value, ast.Name) and n.value.id == spec_var and isinstance(n.slice, ast.Constant):
@@ -190,97 +207,185 @@ def _pass_through(s, dag, d, r, params, spec):
 
 
 # ------------------------------------------------------------------ WRAP
+class _Unsupported(Exception):
+    pass
+
+
+def _canon(t):
+    """canonical form of a term: flatten and sort + and *"""
+    if t[0] in ("add", "mul"):
+        ops = []
+        for x in t[1]:
+            x = _canon(x)
+            if x[0] == t[0]:
+                ops += list(x[1])
+            else:
+                ops.append(x)
+        return (t[0], tuple(sorted(ops, key=repr)))
+    if t[0] == "div":
+        return ("div", _canon(t[1]), _canon(t[2]))
+    if t[0] == "fn":
+        return ("fn", t[1], _canon(t[2]))
+    return t
+
+
+def _term(e, env):
+    if isinstance(e, ast.Name):
+        if e.id in env:
+            return env[e.id]
+        return ("opaque", e.id)
+    if isinstance(e, ast.Constant) and isinstance(e.value, (int, float)):
+        return ("num", e.value)
+    if isinstance(e, ast.BinOp):
+        a, b = _term(e.left, env), _term(e.right, env)
+        if isinstance(e.op, ast.Add):
+            return ("add", (a, b))
+        if isinstance(e.op, ast.Mult):
+            return ("mul", (a, b))
+        if isinstance(e.op, ast.Div):
+            return ("div", a, b)
+        return ("opaque", ast.unparse(e)[:60])
+    if isinstance(e, ast.Call):
+        f = e.func
+        if isinstance(f, ast.Attribute) and f.attr in ("ceil", "floor", "round", "rint", "around") and isinstance(f.value, ast.Name) and f.value.id in ("np", "numpy", "math") and len(e.args) == 1 and not e.keywords:
+            return ("fn", {"rint": "round", "around": "round"}.get(f.attr, f.attr), _term(e.args[0], env))
+        if isinstance(f, ast.Attribute) and f.attr == "round" and not e.args and not e.keywords:
+            return ("fn", "round", _term(f.value, env))
+        # an unknown call applied to known terms is an opaque transformation of them
+        return ("opaque", ast.unparse(e)[:80])
+    return ("opaque", ast.unparse(e)[:60])
+
+
+def _run_wrapper(stmts, env, direction, dname):
+    """symbolic execution of the wrapper body for one concrete direction; returns the returned term or None"""
+    for st in stmts:
+        if isinstance(st, ast.Expr) and isinstance(st.value, ast.Constant):
+            continue
+        if isinstance(st, ast.Assign) and len(st.targets) == 1 and isinstance(st.targets[0], ast.Name):
+            v = st.value
+            if isinstance(v, ast.Call) and isinstance(v.func, ast.Name) and v.func.id == "func":
+                env[st.targets[0].id] = ("sym", "X")
+            else:
+                env[st.targets[0].id] = _term(v, env)
+            continue
+        if isinstance(st, ast.AugAssign) and isinstance(st.target, ast.Name):
+            cur = env.get(st.target.id)
+            if cur is None:
+                raise _Unsupported("augmented assignment to unknown name")
+            rhs = _term(st.value, env)
+            if isinstance(st.op, ast.Add):
+                env[st.target.id] = ("add", (cur, rhs))
+            elif isinstance(st.op, ast.Mult):
+                env[st.target.id] = ("mul", (cur, rhs))
+            else:
+                raise _Unsupported("augmented operator")
+            continue
+        if isinstance(st, ast.Return):
+            return _term(st.value, env)
+        if isinstance(st, ast.Raise):
+            return ("raise",)
+        if isinstance(st, ast.If):
+            t = st.test
+            verdict = None
+            if isinstance(t, ast.Compare) and len(t.ops) == 1 and isinstance(t.ops[0], (ast.Eq, ast.NotEq)):
+                sides = [t.left, t.comparators[0]]
+                nm = [x.id for x in sides if isinstance(x, ast.Name)]
+                cs = [x.value for x in sides if isinstance(x, ast.Constant)]
+                if nm == [dname] and len(cs) == 1:
+                    verdict = (cs[0] == direction) == isinstance(t.ops[0], ast.Eq)
+            if isinstance(t, ast.Compare) and len(t.ops) == 1 and isinstance(t.ops[0], (ast.In, ast.NotIn)) and isinstance(t.left, ast.Name) and t.left.id == dname and isinstance(t.comparators[0], (ast.List, ast.Tuple, ast.Set)):
+                vals = [x.value for x in t.comparators[0].elts if isinstance(x, ast.Constant)]
+                verdict = (direction in vals) == isinstance(t.ops[0], ast.In)
+            if verdict is None:
+                # input validation (type checks on base / offset): a branch that only raises is skipped
+                if all(isinstance(x, ast.Raise) for x in st.body) and not st.orelse:
+                    continue
+                raise _Unsupported("test " + ast.unparse(t)[:60])
+            r = _run_wrapper(st.body if verdict else st.orelse, env, direction, dname)
+            if r is not None:
+                return r
+            continue
+        if isinstance(st, ast.Match) and isinstance(st.subject, ast.Name) and st.subject.id == dname:
+            chosen = None
+            for c in st.cases:
+                pat = c.pattern
+                if isinstance(pat, ast.MatchValue) and isinstance(pat.value, ast.Constant) and pat.value.value == direction and c.guard is None:
+                    chosen = c
+                    break
+                if isinstance(pat, ast.MatchAs) and pat.pattern is None and c.guard is None:
+                    chosen = c
+                    break
+                if isinstance(pat, ast.MatchOr) and any(isinstance(p_, ast.MatchValue) and isinstance(p_.value, ast.Constant) and p_.value.value == direction for p_ in pat.patterns):
+                    chosen = c
+                    break
+            if chosen is not None:
+                r = _run_wrapper(chosen.body, env, direction, dname)
+                if r is not None:
+                    return r
+            continue
+        raise _Unsupported("statement " + type(st).__name__)
+    return None
+
+
 def wrapper_shape(ctx, repo, itf):
-    ctx.rule("WRAP", "the rounding wrapper computes base*ceil(out/base) for up, base*floor(out/base) for down, base*round(out/base) for nearest, adds the offset exactly once and returns that value untransformed")
+    ctx.rule("WRAP", "for direction up / down / nearest the rounding wrapper returns exactly offset + base * ceil|floor|round(out / base) (symbolic evaluation of the wrapper body, any spelling); any other direction raises")
     fn = find_function(itf, "_add_rounding_to_one_function", "primary anchor")
     params = [a.arg for a in fn.args.args]
     if len(params) < 3:
         raise AnalysisError("_add_rounding_to_one_function signature changed")
     base, direction, offset = params[:3]
-    wrappers = [n for n in ast.walk(fn) if isinstance(n, ast.FunctionDef) and any(isinstance(x, ast.Return) and x.value is not None for x in walk_own(n)) and any(isinstance(c, ast.Call) and isinstance(c.func, ast.Name) and c.func.id == "func" for c in ast.walk(n)) and not any(isinstance(m, ast.FunctionDef) for m in n.body)]
+    wrappers = [n for n in ast.walk(fn) if isinstance(n, ast.FunctionDef) and any(isinstance(c, ast.Call) and isinstance(c.func, ast.Name) and c.func.id == "func" for c in ast.walk(n)) and not any(isinstance(m, ast.FunctionDef) for m in n.body)]
     if len(wrappers) != 1:
         raise AnalysisError("rounding wrapper (innermost function calling func) not recognised")
     w = wrappers[0]
-    outvar = None
-    for n in walk_own(w):
-        if isinstance(n, ast.Assign) and isinstance(n.value, ast.Call) and isinstance(n.value.func, ast.Name) and n.value.func.id == "func":
-            outvar = n.targets[0].id
-    rets = [n for n in walk_own(w) if isinstance(n, ast.Return)]
-    if outvar is None or len(rets) != 1:
-        raise AnalysisError("rounding wrapper: result variable / single return not recognised")
-    if not isinstance(rets[0].value, ast.Name):
-        names = [x.id for x in ast.walk(rets[0].value) if isinstance(x, ast.Name)]
-        cands = [x for x in names if any(isinstance(n, ast.Assign) and isinstance(n.targets[0], ast.Name) and n.targets[0].id == x and _round_kind(n.value, base, outvar) for n in walk_own(w))]
-        if len(cands) != 1:
-            raise AnalysisError("rounding wrapper: returned expression not recognised")
-        ctx.ob("WRAP", ok=False, distinct="return")
-        ctx.violation("WRAP", f"return-transformed|{ast.unparse(rets[0].value)[:60]}", itf.loc(rets[0]), f"the wrapper returns `{ast.unparse(rets[0].value)[:80]}` instead of the rounded value itself: the result is transformed after rounding and can leave the statutory grid")
-        rv = cands[0]
-    else:
-        rv = rets[0].value.id
-    want = {"up": "ceil", "down": "floor", "nearest": "round"}
-    seen = {}
-    other = []
-    adds = 0
-    for n in walk_own(w):
-        tgt = None
-        if isinstance(n, ast.Assign) and isinstance(n.targets[0], ast.Name) and n.targets[0].id == rv:
-            tgt = n
-        if isinstance(n, ast.AugAssign) and isinstance(n.target, ast.Name) and n.target.id == rv:
-            if isinstance(n.op, ast.Add) and ast.unparse(n.value) == offset:
-                adds += 1
-            else:
-                other.append(n)
-            continue
-        if tgt is None:
-            continue
-        kind = _round_kind(tgt.value, base, outvar)
-        # which direction literal guards this assignment?
-        lit = None
-        for m in walk_own(w):
-            if isinstance(m, ast.If) and tgt in m.body:
-                t = m.test
-                if isinstance(t, ast.Compare) and len(t.ops) == 1 and isinstance(t.ops[0], ast.Eq):
-                    sides = [t.left, t.comparators[0]]
-                    names = [x.id for x in sides if isinstance(x, ast.Name)]
-                    consts = [x.value for x in sides if isinstance(x, ast.Constant)]
-                    if names == [direction] and len(consts) == 1:
-                        lit = consts[0]
-        if kind is None or lit is None:
-            other.append(tgt)
-        else:
-            seen[lit] = (kind, tgt)
-    for lit, fnname in want.items():
-        ok = lit in seen and seen[lit][0] == fnname
-        ctx.ob("WRAP", ok=ok, distinct=lit)
+    want_fn = {"up": "ceil", "down": "floor", "nearest": "round"}
+    for d, f in want_fn.items():
+        env = {base: ("sym", "B"), offset: ("sym", "O")}
+        try:
+            got = _run_wrapper(w.body, env, d, direction)
+        except _Unsupported as e:
+            raise AnalysisError(f"rounding wrapper contains a construct the symbolic evaluation does not model ({e}); WRAP needs a re-read") from e
+        want = _canon(("add", (("sym", "O"), ("mul", (("sym", "B"), ("fn", f, ("div", ("sym", "X"), ("sym", "B"))))))))
+        ok = got is not None and got != ("raise",) and _canon(got) == want
+        ctx.ob("WRAP", ok=ok, distinct=d)
         if not ok:
-            got = seen.get(lit)
-            ctx.violation("WRAP", f"direction|{lit}|{got[0] if got else 'absent'}", itf.loc(got[1]) if got else itf.loc(w), f"direction {lit!r} is implemented with {got[0] if got else 'nothing'} instead of {fnname} of out/base times base")
-    ok = adds == 1
-    ctx.ob("WRAP", ok=ok, distinct="offset")
+            ctx.violation("WRAP", f"direction|{d}|{_show(got)}", itf.loc(w), f"for direction {d!r} the wrapper returns {_show(got)}; statutory rounding is O + B*{f}(X/B) with X the unrounded value, B the base, O the offset")
+    env = {base: ("sym", "B"), offset: ("sym", "O")}
+    try:
+        got = _run_wrapper(w.body, env, "sideways", direction)
+    except _Unsupported as e:
+        raise AnalysisError(f"rounding wrapper: {e}") from e
+    ok = got == ("raise",)
+    ctx.ob("WRAP", ok=ok, distinct="invalid-direction")
     if not ok:
-        ctx.violation("WRAP", f"offset-added-{adds}-times", itf.loc(w), f"the offset is added {adds} times to the rounded value (must be exactly once)")
-    ctx.ob("WRAP", ok=not other, distinct="no-further-transformation")
-    for n in other:
-        ctx.violation("WRAP", f"extra|{ast.unparse(n)[:70]}", itf.loc(n), f"`{ast.unparse(n)[:90]}` transforms the rounded value again (or rounds in an unrecognised way): the result can leave the statutory grid")
+        ctx.violation("WRAP", "invalid-direction-accepted", itf.loc(w), f"an unknown direction does not raise but returns {_show(got)}")
 
 
-def _round_kind(e, base, outvar):
-    """base * F(out / base)  ->  'ceil' | 'floor' | 'round' | None"""
-    if not (isinstance(e, ast.BinOp) and isinstance(e.op, ast.Mult)):
-        return None
-    a, b = e.left, e.right
-    if ast.unparse(b) == base:
-        a, b = b, a
-    if ast.unparse(a) != base:
-        return None
-    q = f"{outvar} / {base}"
-    if isinstance(b, ast.Call):
-        if isinstance(b.func, ast.Attribute) and b.func.attr in ("ceil", "floor", "round", "rint") and len(b.args) == 1 and ast.unparse(b.args[0]) == q:
-            return {"rint": "round"}.get(b.func.attr, b.func.attr)
-        if isinstance(b.func, ast.Attribute) and b.func.attr == "round" and not b.args and ast.unparse(b.func.value) in (q, f"({q})"):
-            return "round"
-    return None
+def _show(t):
+    if t is None:
+        return "nothing"
+    if t == ("raise",):
+        return "<raises>"
+    t = _canon(t)
+
+    def sh(x):
+        if x[0] == "sym":
+            return x[1]
+        if x[0] == "num":
+            return repr(x[1])
+        if x[0] == "add":
+            return "(" + " + ".join(sh(y) for y in x[1]) + ")"
+        if x[0] == "mul":
+            return "*".join(sh(y) for y in x[1])
+        if x[0] == "div":
+            return f"{sh(x[1])}/{sh(x[2])}"
+        if x[0] == "fn":
+            return f"{x[1]}({sh(x[2])})"
+        if x[0] == "opaque":
+            return f"`{x[1]}`"
+        return str(x)
+
+    return sh(t)
 
 
 # ------------------------------------------------------------------ ONCE
@@ -289,7 +394,8 @@ def not_twice(ctx, repo, itf, arf):
     sh = repo.module("shared.py")
     pi = find_function(sh, "policy_info", "primary anchor")
     dec_keys = {n.slice.value for n in ast.walk(pi) if isinstance(n, ast.Subscript) and isinstance(n.slice, ast.Constant) and isinstance(n.slice.value, str) and "__info__" in ast.unparse(n.value) and isinstance(n.ctx, ast.Store)}
-    tester_keys = {c.left.value for c in ast.walk(arf) if isinstance(c, ast.Compare) and isinstance(c.left, ast.Constant) and isinstance(c.left.value, str) and any(isinstance(o, ast.In) for o in c.ops) and "__info__" in ast.unparse(c.comparators[0])}
+    tester_keys = {c.left.value for c in ast.walk(arf) if isinstance(c, ast.Compare) and isinstance(c.left, ast.Constant) and isinstance(c.left.value, str) and any(isinstance(o, (ast.In, ast.NotIn)) for o in c.ops) and "__info__" in ast.unparse(c.comparators[0])}
+    tester_keys |= {c.args[0].value for c in ast.walk(arf) if isinstance(c, ast.Call) and isinstance(c.func, ast.Attribute) and c.func.attr == "get" and "__info__" in ast.unparse(c.func.value) and c.args and isinstance(c.args[0], ast.Constant)}
     ok = KEY in dec_keys and tester_keys == {KEY}
     ctx.ob("ONCE", ok=ok, distinct="key-decorator-tester")
     if not ok:
@@ -357,57 +463,56 @@ def not_twice(ctx, repo, itf, arf):
 
 # ------------------------------------------------------------------ MISS
 def missing_is_error(ctx, itf, arf, spec_var):
-    ctx.rule("MISS", "the spec is read only when params_key in params, 'rounding' in params[key] and name in params[key]['rounding'] all hold; the other seven combinations raise")
-    guard = None
-    for n in walk_own(arf):
-        if isinstance(n, ast.If) and any(isinstance(x, ast.Raise) for x in n.body) and any(isinstance(c, ast.Constant) and c.value == "rounding" for c in ast.walk(n.test)):
-            guard = n
-            break
-    if guard is None:
-        ctx.ob("MISS", ok=False, distinct="guard")
-        ctx.violation("MISS", "no-guard", itf.loc(arf), "no `raise` guards the look-up of the rounding spec: a rule marked for rounding without a specification would fail with an unspecific error or be silently skipped")
-        return
-    members = []
+    ctx.rule("MISS", "the spec is read only when params_key in params, 'rounding' in params[key] and name in params[key]['rounding'] all hold; whenever one of them fails a raise is reached")
+    import itertools
 
-    def m(node):
-        if isinstance(node, ast.Compare) and len(node.ops) == 1 and isinstance(node.ops[0], (ast.In, ast.NotIn)):
-            k = ast.unparse(node.left) + " in " + ast.unparse(node.comparators[0])
-            if k not in members:
-                members.append(k)
-            nm = f"M{members.index(k)}"
-            if isinstance(node.ops[0], ast.NotIn):
-                return None  # handled below through rewriting
-            return nm
+    from staticlib.guards import Dominance, atoms_and_eval
+
+    rf, read, _ = _spec_read(itf, arf)
+    dom = Dominance(rf)
+
+    def atom(node):
+        if isinstance(node, ast.Compare) and len(node.ops) == 1 and isinstance(node.ops[0], ast.In):
+            c = ast.unparse(node.comparators[0])
+            l = ast.unparse(node.left)
+            if l == "'rounding'":
+                return "M_rounding"
+            if c.endswith("['rounding']"):
+                return "M_name"
+            if "[" not in c and "rounding" not in c and "__info__" not in c:
+                return "M_key"
         return None
 
-    class S2(Subst):
-        def visit(self, node):
-            if isinstance(node, ast.Compare) and len(node.ops) == 1 and isinstance(node.ops[0], ast.NotIn):
-                pos = ast.Compare(left=node.left, ops=[ast.In()], comparators=node.comparators)
-                nm = self.mapper(pos)
-                return ast.UnaryOp(op=ast.Not(), operand=ast.Name(id=nm, ctx=ast.Load()))
-            return super().visit(node)
-
-    expr = S2(m).visit(ast.parse(ast.unparse(guard.test), mode="eval").body)
-    atoms = [f"M{i}" for i in range(len(members))]
-    try:
-        tt = truth_table(expr, atoms)
-    except ValueError as e:
-        raise AnalysisError(f"guard of the rounding-spec look-up is not a boolean combination of membership tests: {e}") from e
-    ok3 = len(members) == 3
-    bad = [k for k, v in tt.items() if v != (not all(k))]
-    ctx.ob("MISS", ok=ok3 and not bad, distinct="guard", n=max(len(tt), 1))
+    conds = dom.of(read)
+    names, conj = atoms_and_eval(conds, atom)
+    mem = [x for x in ("M_key", "M_rounding", "M_name") if x in names]
+    ok3 = len(mem) == 3
+    bad = None
+    if ok3:
+        for vals in itertools.product([False, True], repeat=len(names)):
+            env = dict(zip(names, vals))
+            if conj(env) and not all(env[m] for m in mem):
+                bad = {m: env[m] for m in mem}
+    ctx.ob("MISS", ok=ok3 and bad is None, distinct="guard", n=8)
     if not ok3:
-        ctx.violation("MISS", f"guard-tests|{len(members)}", itf.loc(guard), f"the guard tests {members}; expected the three memberships (key in params, 'rounding' in params[key], name in params[key]['rounding'])")
-    for k in bad[:1]:
-        ctx.violation("MISS", f"guard-truth|{k}", itf.loc(guard), f"with memberships {dict(zip(members, k))} the guard {'raises although the spec exists' if all(k) else 'does not raise although the spec is missing'}")
-    # the read is after the guard at the same nesting level
-    body = None
-    for n in ast.walk(arf):
-        if hasattr(n, "body") and isinstance(n.body, list) and guard in n.body:
-            body = n.body
-    reads = [i for i, st in enumerate(body or []) if isinstance(st, ast.Assign) and isinstance(st.targets[0], ast.Name) and st.targets[0].id == spec_var]
-    ok = bool(reads) and reads[0] > body.index(guard)
-    ctx.ob("MISS", ok=ok, distinct="dominance")
-    if not ok:
-        ctx.violation("MISS", "read-before-guard", itf.loc(guard), "the rounding spec is read before (or outside) the guard that raises when it is missing")
+        ctx.violation("MISS", f"guard-tests|{sorted(mem)}", itf.loc(read), f"the look-up of the rounding spec is guarded by {sorted(mem) or 'no'} membership tests; expected all three (key in params, 'rounding' in params[key], name in params[key]['rounding']): a rule marked for rounding without a specification fails with an unspecific error or is silently skipped")
+    elif bad:
+        ctx.violation("MISS", f"guard-truth|{bad}", itf.loc(read), f"the spec is read although {bad}")
+    # each missing membership reaches a raise
+    raises = [n for n in ast.walk(rf) if isinstance(n, ast.Raise)]
+    if ok3:
+        for m in mem:
+            reached = False
+            for r in raises:
+                n2, c2 = atoms_and_eval(dom.of(r), atom)
+                env = {x: True for x in n2}
+                env[m] = False
+                # opaque atoms (e.g. base/direction membership of the second check) free
+                free = [x for x in n2 if x not in mem]
+                for vals in itertools.product([False, True], repeat=len(free)):
+                    env.update(dict(zip(free, vals)))
+                    if c2(env):
+                        reached = True
+            ctx.ob("MISS", ok=reached, distinct=("raise", m))
+            if not reached:
+                ctx.violation("MISS", f"no-raise|{m}", itf.loc(read), f"when {m[2:]} is missing no raise is reached")
